@@ -8,9 +8,9 @@
 from checks import frame
 
 def check(run):
-    run.assumptions += ['allocation never fails', 'formula scanner: one nesting level per string shape up to the C07 bounds (CBMC pointer/bounds/double-free/leak checks); NOT covered: Crystal_ReadFile']
+    run.assumptions += ['allocation never fails', 'formula scanner: one nesting level per string shape up to the C07 bounds (CBMC pointer/bounds/double-free/leak checks); Crystal_ReadFile: stream model, files enumerated by line kinds (C14 bounds)']
     mods = ['c01', 'c02', 'c05', 'c08', 'c06', 'c14', 'c15', 'c07'] + (['c09', 'c10', 'c11', 'c13'] if run.tier == 'thorough' else [])
-    side = lambda oid: oid.endswith('/side') or '/acc/' in oid or '/step/' in oid or '/nist/' in oid or '/rn/' in oid or '/symbols/' in oid or '/ownership' in oid or oid.endswith('/comparators') or '/scanner/' in oid or '/combine/' in oid
+    side = lambda oid: oid.endswith('/side') or '/acc/' in oid or '/step/' in oid or '/nist/' in oid or '/rn/' in oid or '/symbols/' in oid or '/ownership' in oid or oid.endswith('/comparators') or '/scanner/' in oid or '/combine/' in oid or ('/readfile/' in oid and (run.tier == 'thorough' or '/near' not in oid))      # quick: every short file + the two-crystal files; the neighbourhood family is C14's
     kept = frame.sweep(run, 'C04', keep=side, modules=mods)
     run.parallel(frame.error_api(run, 'C04'))
     cov = frame.coverage(run, run.obs)
